@@ -16,6 +16,9 @@ Record norm_laws {R : Type} (D : euc_dict R) : Prop := mk_norm_laws {
       (2 * rnorm (ed_euc D) d <= rnorm (ed_euc D) (rmul (ed_ring D) q d))%N;
   nl_rem_mul : forall q b, b <> rzero (ed_ring D) ->
       rrem (ed_euc D) (rmul (ed_ring D) q b) b = rzero (ed_ring D);
+  (* `inv` finds every inverse (used by the termination of eliminate_at only) *)
+  nl_inv_complete : forall a z, rmul (ed_ring D) a z = rone (ed_ring D) ->
+      exists ai, rinv (ed_unit D) a = Some ai;
 }.
 Definition gcdx_total {R : Type} (D : euc_dict R) : Prop := forall x y, exists r, ed_gcdx D x y = Some r.
 
@@ -250,7 +253,7 @@ End Term.
 Lemma Zpre_term_laws pre : norm_laws (Zpre_dict pre) /\ gcdx_total (Zpre_dict pre).
 Proof.
   split.
-  - constructor; cbn [Zpre_dict ed_ring ed_euc Z_ring Z_euc rnorm rrem rmul rzero rone].
+  - constructor; cbn [Zpre_dict ed_ring ed_euc ed_unit Z_ring Z_euc Z_units rinv rnorm rrem rmul rzero rone].
     + intros a Ha. destruct a; [contradiction|cbn; lia|cbn; lia].
     + intros q d Hd Hq Hu. rewrite Zabs2N.inj_mul.
       assert (2 <= Z.abs_N q)%N.
@@ -260,5 +263,35 @@ Proof.
         apply N2Z.inj_le. rewrite N2Z.inj_abs_N. exact H1. }
       nia.
     + intros q b Hb. now apply Z.rem_mul.
+    + intros a z Haz. assert (U : Z_is_unit a = true).
+      { apply Z_is_unit_iff. destruct (Z.mul_eq_1 a z Haz) as [-> | ->]; [now left|now right]. }
+      rewrite U. eexists; reflexivity.
   - intros x y. cbn [Zpre_dict ed_gcdx]. apply Z_gcdx_total.
+Qed.
+
+(* ---------- fields ---------- *)
+Lemma field_term_laws {F : Type} (o : ring_ops F) (finv : F -> F) :
+  ring_laws o -> rone o <> rzero o -> (forall a, a <> rzero o -> rmul o a (finv a) = rone o) ->
+  norm_laws (field_dict o finv) /\ gcdx_total (field_dict o finv).
+Proof.
+  intros L H10 Hinv. split.
+  - constructor; cbn [field_dict ed_ring ed_euc ed_unit field_euc field_units rinv rnorm rrem].
+    + intros a Ha. apply (fz_false o L) in Ha. rewrite Ha. lia.
+    + intros q d _ Hq Hu. exfalso. apply (Hu (finv q)). now apply Hinv.
+    + reflexivity.
+    + intros a z Haz. destruct (ris_zero o a) eqn:Z; [|eexists; reflexivity].
+      apply (fz_true o L) in Z. exfalso. apply H10. rewrite <- Haz, Z.
+      pose proof (ring_theory_of_laws o L) as RT. apply (Ring_theory.ARmul_0_l (Rth_ARth (Eqsth F) (Eq_ext _ _ _) RT)).
+  - intros x y. cbn [field_dict ed_gcdx]. unfold generic_gcdx.
+    destruct (ris_zero o x) eqn:Zx; destruct (ris_zero o y) eqn:Zy; cbn [andb].
+    + eexists; reflexivity.
+    + unfold divides. cbn [field_euc rrem]. rewrite Zx, Zy. cbn [negb andb].
+      replace (ris_zero o (rzero o)) with true by (symmetry; now apply (fz_true o L)).
+      eexists; reflexivity.
+    + unfold divides. cbn [field_euc rrem]. rewrite Zx. cbn [negb andb].
+      replace (ris_zero o (rzero o)) with true by (symmetry; now apply (fz_true o L)).
+      eexists; reflexivity.
+    + unfold divides. cbn [field_euc rrem]. rewrite Zx. cbn [negb andb].
+      replace (ris_zero o (rzero o)) with true by (symmetry; now apply (fz_true o L)).
+      eexists; reflexivity.
 Qed.
